@@ -409,7 +409,8 @@ func applySetUpdates(dir string, opts GlobalOptions, id string, updates map[stri
 	lockPath := filepath.Join(dir, "lock")
 	eventsPath := getEventsPath(dir)
 
-	// Handle result.path + result.summary (requires file I/O before lock)
+	// result.path + result.summary come as a pair; the attachment is validated and recorded in the
+	// same lock section as the other fields, so the command applies all of its fields or none.
 	resultPath, hasPath := updates["result.path"]
 	resultSummary, hasSummary := updates["result.summary"]
 	if hasPath || hasSummary {
@@ -418,18 +419,6 @@ func applySetUpdates(dir string, opts GlobalOptions, id string, updates map[stri
 		}
 		if !hasSummary {
 			return errors.New("result.path requires result.summary=")
-		}
-		if err := writeResultEvent(dir, opts, id, resultSummary, resultPath, view...); err != nil {
-			return err
-		}
-		delete(updates, "result.path")
-		delete(updates, "result.summary")
-		// If no other updates, we're done
-		if len(updates) == 0 {
-			if !quiet {
-				fmt.Println(id)
-			}
-			return nil
 		}
 	}
 
@@ -445,6 +434,20 @@ func applySetUpdates(dir string, opts GlobalOptions, id string, updates map[stri
 		task, ok := graph.Tasks[id]
 		if !ok {
 			return fmt.Errorf("unknown task id %s", id)
+		}
+
+		var resultEvents []Event
+		if hasPath {
+			if isEpic(task) {
+				return errors.New("cannot attach result to epic")
+			}
+			event, err := buildResultEvent(dir, id, resultSummary, resultPath)
+			if err != nil {
+				return err
+			}
+			resultEvents = append(resultEvents, event)
+			delete(updates, "result.path")
+			delete(updates, "result.summary")
 		}
 
 		// Epics cannot have state or claim
@@ -488,7 +491,7 @@ func applySetUpdates(dir string, opts GlobalOptions, id string, updates map[stri
 			return fmt.Errorf("unknown keys: %s", strings.Join(unknown, ", "))
 		}
 
-		if err := appendEvents(eventsPath, events); err != nil {
+		if err := appendEvents(eventsPath, append(resultEvents, events...)); err != nil {
 			return err
 		}
 		if err := captureCommitted(dir, view); err != nil {
